@@ -86,13 +86,32 @@ int next_backend_desc = 0;
  * @returns pointer to a registered liberasurecode instance
  * The caller must hold active_instances_rwlock
  */
-ec_backend_t liberasurecode_backend_instance_get_by_desc(int desc)
+static ec_backend_t backend_instance_get_by_desc_locked(int desc)
 {
     struct ec_backend *b = NULL;
     SLIST_FOREACH(b, &active_instances, link) {
         if (b->idesc == desc)
             break;
     }
+    return b;
+}
+
+/**
+ * Look up a backend instance by descriptor
+ *
+ * Takes active_instances_rwlock for reading while the registry is
+ * traversed, so lookups may run concurrently with each other and are
+ * serialized against instance creation and destruction.
+ *
+ * @returns pointer to a registered liberasurecode instance
+ */
+ec_backend_t liberasurecode_backend_instance_get_by_desc(int desc)
+{
+    struct ec_backend *b = NULL;
+    if (rwlock_rdlock(&active_instances_rwlock) != 0)
+        return NULL;
+    b = backend_instance_get_by_desc_locked(desc);
+    rwlock_unlock(&active_instances_rwlock);
     return b;
 }
 
@@ -109,7 +128,7 @@ int liberasurecode_backend_alloc_desc(void)
         if (next_backend_desc >= INT_MAX || next_backend_desc < 0)
             next_backend_desc = 0;
         ++next_backend_desc;
-        if (!liberasurecode_backend_instance_get_by_desc(next_backend_desc))
+        if (!backend_instance_get_by_desc_locked(next_backend_desc))
             return next_backend_desc;
     }
 }
